@@ -443,7 +443,42 @@ pub fn c07(run: &mut Run) -> Stats {
             .reduce(Stats::default, Stats::merge);
         st = st.merge(s5);
     }
-    println!("  C07 + digit runs: {:.1}s", t_part.elapsed().as_secs_f64());
+    // (c4) large sets combined: every ordered pair of 18 properties in union / intersection / subtraction /
+    // negation / nested forms (interval-list algorithms on long lists)
+    {
+        let props = ["L", "Lu", "Ll", "Alphabetic", "Script=Latin", "sc=Greek", "scx=Latin", "Nd", "N", "P", "M", "Lowercase", "ASCII", "Emoji", "Cased", "ID_Continue", "Any", "RGI_Emoji"];
+        let tpls = ["[\\p{A}\\p{B}]", "[\\p{A}&&\\p{B}]", "[\\p{A}--\\p{B}]", "[^\\p{A}\\p{B}]", "[\\p{A}&&[\\p{B}\\p{A}]]", "[\\P{A}--\\P{B}]", "[[^\\p{A}]&&\\p{B}]", "\\p{A}\\P{B}+", "[\\p{A}--[\\p{B}a-z]]"];
+        let known = run.known.clone();
+        let jobs: Vec<(&str, &str)> = props.iter().flat_map(|a| props.iter().map(move |b| (*a, *b))).collect();
+        let s6 = jobs
+            .par_iter()
+            .fold(Stats::default, |mut st, (a, b)| {
+                for tpl in tpls {
+                    let text = tpl.replace('A', "\u{1}").replace('B', b).replace("\u{1}", a);
+                    let pat: Vec<u32> = text.chars().map(|c| c as u32).collect();
+                    for fs in ["u", "v", "iv", "iu"] {
+                        for no_opt in [false, true] {
+                            st.add("evaluations", 1);
+                            st.add("validated", 1);
+                            st.add("property_pair_patterns", 1);
+                            match subject::compile(&pat, Flags::parse(fs), no_opt) {
+                                CompileOutcome::Ok(_) => st.add("nontrivial", 1),
+                                CompileOutcome::Err(_) => {}
+                                CompileOutcome::Panic(m) => {
+                                    let where_ = m.rsplit(" at ").next().unwrap_or("").to_string();
+                                    let case = J::obj().set("kind", J::s("compile")).set("pattern", J::s(&text)).set("pattern_cps", J::cps(&pat)).set("flags", J::s(fs)).set("no_opt", J::Bool(no_opt)).set("what", J::s("panic during compilation")).set("got", J::s(&m));
+                                    st.violation(&known, "C07", &format!("panic during compilation at {} [pair of properties in {}]", where_, tpl), pat.len(), case);
+                                }
+                            }
+                        }
+                    }
+                }
+                st
+            })
+            .reduce(Stats::default, Stats::merge);
+        st = st.merge(s6);
+    }
+    println!("  C07 + digit runs + property pairs: {:.1}s", t_part.elapsed().as_secs_f64());
     // size-parameterised shapes, each in a child process
     let sizes: Vec<usize> = if thorough { vec![1, 2, 10, 100, 255, 256, 257, 1000, 10_000, 65_535, 65_536, 100_000, 1_000_000] } else { vec![1, 2, 10, 100, 255, 256, 257, 1000, 10_000, 65_535, 65_536] };
     let mut jobs: Vec<(&str, usize, &str, bool)> = Vec::new();
@@ -520,7 +555,7 @@ pub fn c07(run: &mut Run) -> Stats {
         st.sample(|| t);
     }
     run.rule = format!(
-        "(a) every string over the {}-token alphabet {:?} of length <= {} and every raw code point string over {{0, (, \\, U+D800, U+DFFF, U+10FFFF, a, {{, [, u, }}}} of length <= {} x flag sets {:?}: from_unicode must return Ok or Err (catch_unwind; a watchdog reports any compile > 10 s); (c) every prefix and suffix of every C08 seed pattern, and every prefix followed by each of 15 cut-off construct openings (\\ \\u \\x \\c \\k< \\p{{ \\q{{ (? (?< [ [^ {{ {{1, \\u{{ \\ud83d\\u), x the same flag sets; (c2) every code point of interest (all with a case partner in either mode, encoding-length boundary neighbours, 0..=U+0100, surrogate block ends; thorough: all of 0..=0x10FFFF) substituted into 20 templates (atom, class member, range end, \\q string, set operand, backreference target, quantified, lookbehind, escaped, group name, modifier body, alternation), x the same flag sets x {{optimised, no_opt}}; (c3) 18 numeric contexts (\\u{{ \\x \\u \\c \\k<\\u{{ \\p{{ in and out of classes, group names, {{n}} {{n,m}} {{n,}}, \\N, octal) x every run over three digits of length <= 10 (11 thorough) x {{\"\",u,v,i}}; (b) {} size-parameterised shapes x sizes {:?} x {{\"\",u,v}} x {{main thread, spawned 2 MiB thread}}, each in a child process (8 MiB stack, 6 GiB address space, {} s of CPU time): exit status 0 with Ok/Err; an allocation failure under the 6 GiB cap is a violation for patterns of at most 2^20 code points and a cap beyond; non-trivial = the input compiles",
+        "(a) every string over the {}-token alphabet {:?} of length <= {} and every raw code point string over {{0, (, \\, U+D800, U+DFFF, U+10FFFF, a, {{, [, u, }}}} of length <= {} x flag sets {:?}: from_unicode must return Ok or Err (catch_unwind; a watchdog reports any compile > 10 s); (c) every prefix and suffix of every C08 seed pattern, and every prefix followed by each of 15 cut-off construct openings (\\ \\u \\x \\c \\k< \\p{{ \\q{{ (? (?< [ [^ {{ {{1, \\u{{ \\ud83d\\u), x the same flag sets; (c2) every code point of interest (all with a case partner in either mode, encoding-length boundary neighbours, 0..=U+0100, surrogate block ends; thorough: all of 0..=0x10FFFF) substituted into 20 templates (atom, class member, range end, \\q string, set operand, backreference target, quantified, lookbehind, escaped, group name, modifier body, alternation), x the same flag sets x {{optimised, no_opt}}; (c3) 18 numeric contexts (\\u{{ \\x \\u \\c \\k<\\u{{ \\p{{ in and out of classes, group names, {{n}} {{n,m}} {{n,}}, \\N, octal) x every run over three digits of length <= 10 (11 thorough) x {{\"\",u,v,i}}; (c4) every ordered pair of 18 large properties in 9 class templates (union, &&, --, negation, nesting) x {{u,v,iu,iv}} x {{optimised, no_opt}}; (b) {} size-parameterised shapes x sizes {:?} x {{\"\",u,v}} x {{main thread, spawned 2 MiB thread}}, each in a child process (8 MiB stack, 6 GiB address space, {} s of CPU time): exit status 0 with Ok/Err; an allocation failure under the 6 GiB cap is a violation for patterns of at most 2^20 code points and a cap beyond; non-trivial = the input compiles",
         toks.len(),
         TOKENS,
         n_tok,
